@@ -37,6 +37,17 @@ class SymArr(_np.ndarray):
     def tolist(self):
         return self.view(_np.ndarray).tolist()
 
+    def astype(self, dtype, *a, **k):
+        # a float cast of exact / symbolic contents keeps them (floats are modelled as exact reals)
+        if self.dtype == object:
+            try:
+                floating = _np.issubdtype(_np.dtype(dtype), _np.floating)
+            except TypeError:
+                floating = False
+            if floating:
+                return self.copy()
+        return super().astype(dtype, *a, **k)
+
 
 def _post(res):
     if isinstance(res, _np.ndarray) and res.dtype == object:
@@ -152,6 +163,16 @@ def _is_nan(v):
     return (not is_sym(v)) and isinstance(v, (float, _np.floating)) and _math.isnan(v)
 
 
+def _float_dtype_only(a, k):
+    """np.array(x, dtype=<floating>) with no other argument: a float cast of symbolic contents keeps them"""
+    if a or set(k) != {"dtype"}:
+        return False
+    try:
+        return bool(_np.issubdtype(_np.dtype(k["dtype"]), _np.floating))
+    except TypeError:
+        return False
+
+
 class SymNumpy:
     linalg = _Linalg()
     nan = _np.nan
@@ -165,12 +186,16 @@ class SymNumpy:
     # -- constructors
     @staticmethod
     def array(obj, *a, **k):
+        if _float_dtype_only(a, k) and has_sym(obj):
+            return _np.array(obj, dtype=object).view(SymArr)
         if "dtype" in k or a or not has_sym(obj):
             return _np.array(obj, *a, **k)
         return _np.array(obj, dtype=object).view(SymArr)
 
     @staticmethod
     def asarray(obj, *a, **k):
+        if _float_dtype_only(a, k) and has_sym(obj):
+            return _np.asarray(obj, dtype=object).view(SymArr)
         if "dtype" in k or a or not has_sym(obj):
             return _np.asarray(obj, *a, **k)
         return _np.asarray(obj, dtype=object).view(SymArr)
